@@ -9,15 +9,15 @@ use serde_json::Value;
 use std::collections::BTreeMap;
 
 /// Curated templates: diverge at an escape, inside a group, at a group boundary, at a multi-byte character (also at two
-/// characters sharing their first UTF-8 byte), after an unbalanced literal parenthesis, inside a marker whose character class holds a parenthesis,
+/// characters sharing their first UTF-8 byte), after an unbalanced literal parenthesis, inside a marker whose character class holds a parenthesis, after a prefix with several escaped characters followed by a one-character value,
 /// or are prefixes of one another. Patterns are produced from them exactly as rules produce them.
 pub const CURATED: &[&str] = &[
-    "/", "/a", "/a/b", "/a.b", "/a-b", "/a/@id", "/a/@id/b", "/a/@w", "/a/@lang", "/a/@lang/x", "/é", "/éx", "/é/@id", "/a)/@id/b", "/a)/@id/c", "/èx", "/a/@par/b", "/a/@par/c",
+    "/", "/a", "/a/b", "/a.b", "/a-b", "/a/@id", "/a/@id/b", "/a/@w", "/a/@lang", "/a/@lang/x", "/é", "/éx", "/é/@id", "/a)/@id/b", "/a)/@id/c", "/èx", "/a/@par/b", "/a/@par/c", "/a-b-c/@id", "/a-b-c/x/@id",
 ];
 /// Wider pool for the random histories.
 pub const TEMPLATES: &[&str] = &[
     "/", "/a", "/a/b", "/a.b", "/a-b", "/a/@id", "/a/@id/b", "/a/@a", "/a/@lang", "/a/@lang/x", "/é", "/éx", "/é/@id", "/a(b)", "/A/b", "/a/@slug", "/a/@slug/@id", "/a/@any", "/a/@mix",
-    "/a/@up", "/foo/@bad", "/foo/@bad/x", "/a/@pet", "/a+b", "/a[b", "/a\\b", "/a/@id-@b", "/p/@a-@b", "/日本/@id", "/日本", "/a/b/c/d", "/a/b/c/e", "@any", "@lang/x", "/è", "/èx", "/日月", "/ü/@id", "/ö/@id", "/a)/@id/b", "/a)/@id/c", "/a)/@id", "/a)/@a", "/:)/@slug/x", "/:)/@slug/y", "/a(/@id/b", "/a(/@id/c", "/a/@w", "/a/@w/x", "/a/@d", "@w.example", "@d/x", "/a/@par/b", "/a/@par/c", "/a/@par", "/x/@opar/a", "/x/@opar/b", "/a/@nd", "/a/@par/@opar",
+    "/a/@up", "/foo/@bad", "/foo/@bad/x", "/a/@pet", "/a+b", "/a[b", "/a\\b", "/a/@id-@b", "/p/@a-@b", "/日本/@id", "/日本", "/a/b/c/d", "/a/b/c/e", "@any", "@lang/x", "/è", "/èx", "/日月", "/ü/@id", "/ö/@id", "/a)/@id/b", "/a)/@id/c", "/a)/@id", "/a)/@a", "/:)/@slug/x", "/:)/@slug/y", "/a(/@id/b", "/a(/@id/c", "/a/@w", "/a/@w/x", "/a/@d", "@w.example", "@d/x", "/a/@par/b", "/a/@par/c", "/a/@par", "/x/@opar/a", "/x/@opar/b", "/a/@nd", "/a/@par/@opar", "/a-b-c/@id", "/a-b-c/x/@id", "/a.b.c.d/@a", "/a.b.c.d/e/@a",
 ];
 
 /// Arbitrary expressions, not of the rule shape ("raw:" templates are used verbatim). They are outside C08's domain
